@@ -181,7 +181,7 @@ Definition c04_handler (a : list Z) : list Z :=
                else FRes (if fk =? 2 then OUnsat else if fk =? 3 then OSat true EmptyString
                           else if fk =? 4 then OSat false EmptyString else if fk =? 5 then OUnknown else OErr) in
       let o := gen_get_solver_output (negb (sh =? 0)) f in
-      [match gen_callback_verdict o with NoModel => 0 | ValidCex => 1 | InvalidCex => 2 end;
+      [match gen_callback_verdict (negb (ee =? 0)) o with NoModel => 0 | ValidCex => 1 | InvalidCex => 2 end;
        if gen_callback_shutdown (negb (ee =? 0)) o then 1 else 0]
   | _ => []
   end.
